@@ -214,6 +214,21 @@ def block(text):
     return '(\n' + indent(text) + ')'
 
 
+
+def projections(n):
+    """the projection suffixes of a right-nested n-tuple"""
+    if n == 1:
+        return ['']
+    return ['.2' * i + ('.1' if i < n - 1 else '') for i in range(n)]
+
+
+def destruct(names, types, src):
+    """let-lines binding the components of the tuple `src` (by projections: they reduce on a variable)"""
+    if len(names) == 1:
+        return 'let %s : %s := %s\n' % (names[0], lean_type(types[0]), src)
+    return ''.join('let %s : %s := %s%s\n' % (nm, lean_type(ty), src, pr)
+                   for nm, ty, pr in zip(names, types, projections(len(names))))
+
 # ------------------------------------------------------------------------------------ primitives
 
 class Prim:
@@ -252,7 +267,7 @@ METHODS = {
     ('str', 'rstrip'): Prim('(Yaql.PyStr.rstrip {cfg} {self} {0})', ['str?'], STR, opt=1, optwrap=False,
                             defaults=['none']),
     ('str', 'replace'): Prim('(Yaql.PyStr.replace {self} {0} {1} {2})', ['str', 'str', 'int'], STR, opt=1,
-                             optwrap=False, defaults=['(-1)']),
+                             optwrap=False, defaults=['(-1)'], partial=True),
     ('str', 'split'): Prim('(Yaql.PyStr.split {cfg} {self} {0} {1})', ['str?', 'int'], T('[str]'), opt=2,
                            optwrap=False, defaults=['none', '(-1)'], partial=True),
     ('str', 'rsplit'): Prim('(Yaql.PyStr.rsplit {cfg} {self} {0} {1})', ['str?', 'int'], T('[str]'), opt=2,
@@ -534,6 +549,9 @@ class FnTranslator:
             if e is None:
                 e = E('()', UNIT) if ret == UNIT else E('none', NONE)
             e = self.coerce(e, ret, f)
+            if self.monadic and e.binds and e.text == e.binds[-1][0]:
+                # `return <partial call>`: the call's own outcome is the function's outcome
+                return self.with_binds(e.binds[:-1], e.binds[-1][1], ctx)
             body = '(.ok %s)' % e.text if self.monadic else e.text
             return self.with_binds(e.binds, body, ctx)
 
@@ -719,7 +737,8 @@ class FnTranslator:
                     self.refuse(s, 'nested unpacking target')
                 env2[el.id] = Var(lean_ident(el.id), ty)
                 names.append(lean_ident(el.id))
-            body = 'let (%s) := %s\n%s' % (', '.join(names), e.text, cont(env2))
+            u = self.tmp('u')
+            body = 'let %s := %s\n%s%s' % (u, e.text, destruct(names, list(e.ty[1:]), u), cont(env2))
             return self.with_binds(e.binds, body, ctx)
         if isinstance(tgt, ast.Subscript) and isinstance(tgt.value, ast.Name):
             name = tgt.value.id
@@ -849,9 +868,11 @@ class FnTranslator:
         if len(vars_) == 1:
             n, ty = vars_[0]
             pat = '%s : %s' % (lean_ident(n), lean_type(ty))
-        else:
-            pat = '(%s)' % ', '.join(lean_ident(n) for n, _ in vars_)
-        return 'let %s := if %s then %s else %s\n%s' % (pat, cond, block(a), block(b), cont(env2))
+            return 'let %s := if %s then %s else %s\n%s' % (pat, cond, block(a), block(b), cont(env2))
+        j = self.tmp('j')
+        return 'let %s := if %s then %s else %s\n%s%s' % (
+            j, cond, block(a), block(b),
+            destruct([lean_ident(n) for n, _ in vars_], [ty for _, ty in vars_], j), cont(env2))
 
     def if_none(self, s, nar, env, ctx, cont):
         """if x is None: A else: B   ->   match x with | none => A | some x => B   (x narrowed in B)"""
@@ -879,17 +900,17 @@ class FnTranslator:
             self.refuse(s, 'for ... else')
         it = self.tr_iter(s.iter, env)
         ety = elem_type(it.ty)
-        # loop target pattern
-        pat, tvars = self.loop_target(s.target, ety)
+        tvars = self.loop_target(s.target, ety)          # [(python name, type, projection)]
         body_assigned = assigned_names(s.body)
-        tnames = [n for n, _ in tvars]
+        tnames = [n for n, _, _ in tvars]
+        if len(set(tnames)) != len(tnames):
+            self.refuse(s.target, 'a name occurs twice in the loop target')
         state = [n for n in body_assigned if n in env and n not in tnames]
         # a loop target that exists before the loop keeps its last value afterwards
         carried_targets = [n for n in tnames if n in env]
         state_all = carried_targets + state
-        for n in state_all:
-            if env[n].param and env[n].ty[0] in ('list', 'dict') and False:
-                pass
+        st_names = [lean_ident(n) for n in state_all]
+        st_types = [env[n].ty for n in state_all]
 
         def st_tuple(env_):
             parts = [env_[n].lean for n in state_all]
@@ -897,30 +918,21 @@ class FnTranslator:
                 return '()'
             return parts[0] if len(parts) == 1 else '(%s)' % ', '.join(parts)
 
-        st_types = [env[n].ty for n in state_all]
         st_lean_ty = 'Unit' if not st_types else (lean_type(st_types[0]) if len(st_types) == 1 else
                                                   ' × '.join(lean_type(t, False) for t in st_types))
-        st_pat = '()' if not state_all else (lean_ident(state_all[0]) if len(state_all) == 1 else
-                                            '(%s)' % ', '.join(lean_ident(n) for n in state_all))
-        if not state_all:
-            st_pat = '_'
-
         # inside the body: state variables keep their (pre-loop) types; the target variables are bound per element
         env_body = dict(env)
         for n in state_all:
             v = env[n].copy()
             v.param = False
             env_body[n] = v
-        fresh_t = {}
-        for n, ty in tvars:
-            if n in carried_targets:
-                fresh_t[n] = self.tmp(lean_ident(n))
-            else:
-                fresh_t[n] = lean_ident(n)
+        for n, ty, _ in tvars:
             env_body[n] = Var(lean_ident(n), ty)
-        elem_pat = pat(fresh_t)
-        rebinding = ''.join('let %s : %s := %s\n' % (lean_ident(n), lean_type(env_body[n].ty), fresh_t[n])
-                            for n in carried_targets)
+        sv, ev = self.tmp('s'), self.tmp('x')
+        prologue = destruct(st_names, st_types, sv) if state_all else ''
+        # the element's components are bound AFTER the state, as the loop assigns its target at the top of each round
+        prologue += ''.join('let %s : %s := %s%s\n' % (lean_ident(n), lean_type(ty), ev, pr) for n, ty, pr in tvars)
+        lam = 'fun %s %s =>' % ('(%s : %s)' % (sv, st_lean_ty), '(%s : %s)' % (ev, lean_type(ety)))
 
         def check_types(env_):
             for n in state_all:
@@ -932,7 +944,7 @@ class FnTranslator:
 
         saved = (self.ntmp, self.size)
         # 1st try: the body never leaves the loop -> a fold
-        probe = Ctx(lambda e, env_: '', lambda t: '', lambda env_: '', lambda env_: '')
+        probe = Ctx(lambda e, env_: '', lambda t: '', lambda env_: '', lambda env_: '', ans_ty=ctx.ans_ty)
 
         def fin_fold(env_):
             check_types(env_)
@@ -947,18 +959,18 @@ class FnTranslator:
         for n in body_assigned + tnames:
             if n not in state_all:
                 env_after.pop(n, None)        # bound only inside the body: not visible afterwards
-        after_pat = st_pat if state_all else '_'
         if not probe.escaped:
-            loop = 'List.foldl (fun %s %s =>\n%s) %s %s' % (
-                st_pat if state_all else '(_ : Unit)', elem_pat, indent(rebinding + body, 4), st_tuple(env), it.text)
-            if len(state_all) == 1:
-                text = 'let %s : %s := %s\n%s' % (after_pat, st_lean_ty, loop, cont(env_after))
-            elif state_all:
-                text = 'let %s := %s\n%s' % (after_pat, loop, cont(env_after))
-            else:
-                text = cont(env_after)      # a loop without state and without exits has no effect
+            if not state_all:
+                return self.with_binds(it.binds, cont(env_after), ctx)   # no state, no exits: no effect
+            loop = '(List.foldl (%s\n%s) %s %s)' % (lam, indent(prologue + body, 4), st_tuple(env), it.text)
+            r = self.tmp('r')
+            text = 'let %s : %s := %s\n%s%s' % (r, st_lean_ty, loop, destruct(st_names, st_types, r), cont(env_after))
             return self.with_binds(it.binds, text, ctx)
         self.ntmp, self.size = saved
+        sv, ev = self.tmp('s'), self.tmp('x')
+        prologue = destruct(st_names, st_types, sv) if state_all else ''
+        prologue += ''.join('let %s : %s := %s%s\n' % (lean_ident(n), lean_type(ty), ev, pr) for n, ty, pr in tvars)
+        lam = 'fun %s %s =>' % ('(%s : %s)' % (sv, st_lean_ty), '(%s : %s)' % (ev, lean_type(ety)))
         # general form: the body answers with a Step
         ret_ty = ctx.ans_ty
         lctx = Ctx(lambda e, env_: '(Yaql.Py.Step.ret %s)' % block(ctx.ret(e, env_)),
@@ -973,24 +985,26 @@ class FnTranslator:
 
         body = self.tr_stmts(s.body, env_body, lctx, fin_step)
         ctx.escaped = True
-        loop = '(Yaql.Py.forLoop %s %s (fun %s %s =>\n%s) : Yaql.Py.Loop %s %s)' % (
-            it.text, st_tuple(env), st_pat if state_all else '(_ : Unit)', elem_pat, indent(rebinding + body, 4),
-            '(' + st_lean_ty + ')', ret_ty)
+        loop = '(Yaql.Py.forLoop %s %s (%s\n%s) : Yaql.Py.Loop %s %s)' % (
+            it.text, st_tuple(env), lam, indent(prologue + body, 4), '(' + st_lean_ty + ')', ret_ty)
         # a `return` inside the loop has already been rendered by ctx.ret as the function's (or the outer
         # loop's) way of leaving: the value is passed through unchanged
-        text = 'match %s with\n| .ret r__ => r__\n| .done %s => %s' % (loop, after_pat, block(cont(env_after)))
+        r = self.tmp('r')
+        after = (destruct(st_names, st_types, r) if state_all else '') + cont(env_after)
+        text = 'match %s with\n| .ret r__ => r__\n| .done %s => %s' % (loop, r if state_all else '_', block(after))
         return self.with_binds(it.binds, text, ctx)
 
-    def loop_target(self, tgt, ety):
-        """-> (pattern renderer(names map), [(python name, type)])"""
+    def loop_target(self, tgt, ety, proj=''):
+        """-> [(python name, type, projection from the element)]"""
         if isinstance(tgt, ast.Name):
-            return (lambda m: m[tgt.id]), [(tgt.id, ety)]
+            return [(tgt.id, ety, proj)]
         if isinstance(tgt, (ast.Tuple, ast.List)):
             if ety[0] != 'tup' or len(ety) - 1 != len(tgt.elts):
                 self.refuse(tgt, 'loop target does not match the element type %s' % (ety,))
-            subs = [self.loop_target(el, ty) for el, ty in zip(tgt.elts, ety[1:])]
-            tv = [x for _, l in subs for x in l]
-            return (lambda m: '(%s)' % ', '.join(p(m) for p, _ in subs)), tv
+            out = []
+            for el, ty, pr in zip(tgt.elts, ety[1:], projections(len(tgt.elts))):
+                out += self.loop_target(el, ty, proj + pr)
+            return out
         self.refuse(tgt, 'loop target outside the subset')
 
     def tr_iter(self, node, env):
